@@ -14,6 +14,7 @@ EXACT_SETS = ["NetherlandsRDNewQuad", "WebMercatorQuad", "NZTM2000Quad", "WorldM
 def run(tier):
     t0 = time.time()
     v = vlib.Verdict(PROP)
+    design_done = snapcheck.run_design(("levels",), tier)
     drv = vlib.build_harness()
     classify = snapcheck.classify_known(PROP)
     s = vlib.seed()
@@ -80,7 +81,7 @@ def run(tier):
         "traces_validated_against_impl": len(allrecs) + len(ls),
         "samples": [json.loads(lx[0]), json.loads(lf[0])],
         "records_per_set": sets, "tile_matrix_ids_exercised": {k: sorted(x) for k, x in ids.items()}, "coordinates_judged": npts,
-        "synthetic_records": len(ls),
+        "synthetic_records": len(ls), "design_models": design_done,
         "rule": "all 7 built-in sets accepted by validation; 1-3 random ids per call out of 0..20 (plus ids beyond level 32); polygons at random places incl. the origin "
                 "corner and near the far corner; per returned coordinate the harness computes with exact rationals from the document the distance to the ideal pixel "
                 "centre, 2 ulp, and the document-inconsistency term; TLC compares with the deviation DeviationStats reported",
